@@ -361,3 +361,19 @@ Lemma cyc_any_sound g : cyc_any g = true -> exists e, greach g e e.
 Proof.
   unfold cyc_any. rewrite existsb_exists. intros [[k v] [_ H]]. exists k. apply cyc_from_sound. exact H.
 Qed.
+
+(* every call site in the sources (regenerated list) passes exactly as many arguments as the format of its code
+   consumes: no conversion reads an argument that was not passed, no argument is dropped by the format *)
+Lemma report_sites_all_ok : forallb site_ok report_sites = true.
+Proof. vm_compute. reflexivity. Qed.
+
+Lemma report_sites_match_formats : forall code passed, In (code, passed) report_sites ->
+  in_table code /\ e_nargs (entry code) = passed.
+Proof.
+  intros code passed Hin.
+  pose proof (proj1 (forallb_forall site_ok report_sites) report_sites_all_ok (code, passed) Hin) as H.
+  unfold site_ok in H. cbn [fst snd] in H.
+  apply andb_prop in H. destruct H as [H H3]. apply andb_prop in H. destruct H as [H1 H2].
+  apply Z.eqb_eq in H1. apply Z.leb_le in H2. apply Z.ltb_lt in H3.
+  split; [|exact H1]. unfold in_table. split; [lia|]. lia.
+Qed.
